@@ -39,6 +39,34 @@ class El:
                 yield from walk(c)
         return walk(self)
 
+    # direct children only (lxml: a path without '//' does not descend)
+    def _kids(self, path):
+        if "/" in path.replace("{*}", "").split("}")[-1] or path.startswith("."):
+            from symx.core import Unsupported
+            raise Unsupported("element path %r" % (path,))
+        name = path.split("}")[-1]
+        return [c for c in self.children if name == "*" or c.tag.split("}")[-1] == name]
+
+    def find(self, path, namespaces=None):
+        k = self._kids(path)
+        return k[0] if k else None
+
+    def findall(self, path, namespaces=None):
+        return self._kids(path)
+
+    def iterfind(self, path, namespaces=None):
+        return iter(self._kids(path))
+
+    def iterchildren(self, *tags):
+        names = [t.split("}")[-1] for t in tags]
+        return iter([c for c in self.children if not names or c.tag.split("}")[-1] in names])
+
+    def __iter__(self):
+        return iter(self.children)
+
+    def __len__(self):
+        return len(self.children)
+
 
 def _num_text(idx, t, m):
     from symx import core
@@ -156,8 +184,12 @@ def sym(ctx, cfg):
                 hits_el.append(El("search_hit", attrib, children))
                 jspec["hits"].append(jhit)
                 expected.append((exp, pep, mods, prots, flags))
-            spectra_el.append(El("spectrum_query", dict(end_scan=a_scan, assumed_charge=a_ch, retention_time_sec=a_rt, precursor_neutral_mass=a_mass),
-                                 [El("search_result", {}, hits_el)]))
+            # the schema allows several <search_result> elements per spectrum (one per search): with >= 2 hits the
+            # hits may be spread over two of them (decided by the solver)
+            split = len(hits_el) >= 2 and bool(ctx.fresh_bool("hits_in_two_search_results"))
+            jspec["split_results"] = bool(split)
+            results = [El("search_result", {}, hits_el[:1]), El("search_result", {}, hits_el[1:])] if split else [El("search_result", {}, hits_el)]
+            spectra_el.append(El("spectrum_query", dict(end_scan=a_scan, assumed_charge=a_ch, retention_time_sec=a_rt, precursor_neutral_mass=a_mass), results))
             jrun["spectra"].append(jspec)
         runs_el.append(El("msms_run_summary", dict(base_name=base, raw_data=".mzML"), spectra_el))
         doc.append(jrun)
@@ -342,6 +374,8 @@ def _xml(doc):
                 for s in h["scores"]:
                     o.append('<search_score name=%s value=%s/>' % (q(s["name"]), q(s["value"])))
                 o.append("</search_hit>")
+                if sp.get("split_results") and rank == 0:
+                    o.append('</search_result><search_result search_id="2">')
             o.append("</search_result></spectrum_query>")
         o.append("</msms_run_summary>")
     o.append("</msms_pipeline_analysis>")
